@@ -332,6 +332,7 @@ theorem stepSimple_sim {ρ : IdRel} {t u : LSt} (h : Q ρ t u) (hq : Quiet t) (o
   | blockS a b => exact step_blockS h a b
   | blockedSq a => exact step_blockedSq h a
   | emptySq a => exact step_emptySq h a
+  | boolSq a => exact step_boolSq h a
   | callS a b => exact .none
   | newG a b => exact step_newG h a b
   | cpG a b => exact step_cpG h a b
